@@ -10,10 +10,18 @@
          `to_json` (listed in ANY order); <val> = {"s": text} | {"r": id} | {"l": [{"s": text} | {"r": id}, …]}.
          answer: the order in which `dump` enters the objects, whether `load (dump st)` reproduces
          it, key-uniqueness, the addresses of the loaded objects, and the size of the memo-less walk.
+  "sorted": a request of `AcnModel/WireSortedRd.lean` (the C07 driver's format: algorithm configuration,
+         observed infrastructure, `"calls": []`, and a `"simrun"` scenario): the UNINTERRUPTED whole simulation
+         with the MODELLED sorted algorithm / round robin / uncontrolled baseline as scheduler — without
+         estimator through `Sim.run`, with the `SimpleRampdown` estimator through the stateful loop
+         `SimSortedRd.runSt` (the estimator object threaded from call to call).  answer: that run in the
+         `jResult` format (+ "rd_bounds").  The harness compares it with the implementation's uninterrupted
+         run AND with its interrupted / serialised / resumed runs under the same algorithm object.
 -/
 import AcnModel.WireSim
 import AcnModel.Registry
 import AcnModel.RegistrySim
+import AcnModel.WireSortedRd
 open Lean Acn Acn.Wire Acn.EventCore Acn.Sim
 
 namespace Acn.RegWire
@@ -153,6 +161,11 @@ def handle (j : Json) : Except String Json := do
   let d ← match j.getObjVal? "decode" with
     | .ok v => if v.isNull then pure Json.null else handleDecode v
     | .error _ => pure Json.null
-  pure (Json.mkObj [("sim", s), ("reg", r), ("decode", d)])
+  let so ← match j.getObjVal? "sorted" with
+    | .ok v => if v.isNull then pure Json.null else do
+        let a ← Acn.WireSortedRd.handle v
+        pure ((a.getObjVal? "simrun").toOption.getD Json.null)
+    | .error _ => pure Json.null
+  pure (Json.mkObj [("sim", s), ("reg", r), ("decode", d), ("sorted", so)])
 
 def main : IO Unit := runDriver handle
